@@ -178,7 +178,7 @@ func (g *pgen) intExpr(d int) string {
 	r := g.r
 	if g.errPct > 0 && r.Chance(g.errPct) {
 		g.tag("planted-error")
-		return r.Pick([]string{"nope", "i / z", "l[99]", "st.Missing", "np.A", "i % z", "s - 1", "li[-1]"})
+		return r.Pick([]string{"nope", "i / z", "l[99]", "st.Missing", "np.A", "i % z", "s - 1", "li[-1]", "i % 0.5", "j % f", "i / \"0\"", "i % t", "f % 0.25", "i / t"})
 	}
 	if d <= 0 {
 		return r.Pick([]string{"i", "j", "z", "1", "2", "0", "i", "st.A", "len(l)", "li[0]", "pt.A", "bi", "bj", "i", "j"})
@@ -257,7 +257,7 @@ func (g *pgen) boolExpr(d int) string {
 
 func (g *pgen) anyExpr(d int) string {
 	r := g.r
-	switch r.Intn(10) {
+	switch r.Intn(11) {
 	case 0, 1:
 		return g.intExpr(d)
 	case 2, 3, 4:
@@ -274,6 +274,16 @@ func (g *pgen) anyExpr(d int) string {
 			return r.Pick(g.lets)
 		}
 		return "s"
+	case 9:
+		// slice expressions, bounds on both sides of the length (the Go values carry spare capacity)
+		base := r.Pick([]string{"l", "li", "ls", "s", "st.C", "el", "ident(li)", "g"}) // a slice expression takes no further postfix
+		lo := r.Pick([]string{"", "0", "1", "j", "2", "4"})
+		hi := r.Pick([]string{"", "1", "2", "3", "4", "5", "j", "len(" + base + ")", "len(" + base + ")+1"})
+		e := base + "[" + lo + ":" + hi + "]"
+		if r.Bool() {
+			return "len(" + e + ")"
+		}
+		return e
 	}
 	return r.Pick([]string{".A", ".B", ".", "s", "l[2]", "li[1]", "ls[1]"})
 }
@@ -611,11 +621,13 @@ func (g *pgen) stmt(d int) string {
 		g.lets = append(g.lets, "p", "q")
 		body := g.list(d-1) + r.Pick([]string{"{{p}}", "{{q}}", "", "{{.}}"})
 		g.lets = g.lets[:saved]
-		g.inBlk = was
 		s := "{{block " + name + params + ctx + "}}" + body
 		if r.Chance(30) {
+			// the default content is rendered from inside the body: a definition or yield in it could
+			// re-enter this block without end (a divergent program, not a subject of any property)
 			s += "{{content}}" + g.list(d-1)
 		}
+		g.inBlk = was
 		return s + "{{end}}"
 	case "include":
 		g.tag("include")
